@@ -19,69 +19,122 @@ import time
 
 import vlib
 
-KINDS = "GIBC"  # good text, good text importing document 1 (document 0 only), text with a syntax error, close
+# Documents (index = position in the harness `docs` list; URIS = their uri in the Coq model):
+#   0 a.incn, 1 b.incn: files the client opens; 2 c.incn (parse error), 3 d.incn (lex error), 4 n.incn (imports b):
+#   files that exist only on disk; 5 untitled:Untitled-1: a document without a file path (model uri 100)
+URIS = [0, 1, 2, 3, 4, 100]
+UNTITLED = 5
+# Text kinds:  G plain | I imports b | J imports c, d, n, a missing module and n again (visit order n, b, d, c) |
+#   R imports a (document 1 only) | K a const declaration | B parse error | L lex error |
+#   M didChange with TWO content changes (the last one counts) | E didChange with NO content change | C close
+DOC_KINDS = {0: "GIJKBLMEC", 1: "GRBLMEC", UNTITLED: "GBC"}
+PARSES = "GIJRKM"
+IMPORTS = {"I": [1], "J": [4, 1, 3, 2], "R": [0]}
 HOVER = [1, 4]
 # C18_VARIANT=Repaired: experiment mode — compare the server with `render Repaired` and suppress nothing
-# (used to validate a candidate fix of backend.rs in a scratch worktree against theorem T1).
+# (used to validate a candidate fix of backend.rs in a scratch worktree against theorem T2).
 VARIANT = os.environ.get("C18_VARIANT", "Faithful")
 if VARIANT not in ("Faithful", "Repaired"):
     VARIANT = "Faithful"
 GATES_CFG = ["--cfg", "incan_verif", "--check-cfg=cfg(incan_verif)", "--cfg", "incan_verif_gates",
              "--check-cfg=cfg(incan_verif_gates)", "-Awarnings"]
+DISK = {"a": ("G", 91), "b": ("G", 90), "c": ("B", 92), "d": ("L", 93), "n": ("I", 94)}
+ARMS = {0: "start", 1: "DepsRead keeps guard", 2: "DepsRead drops guard", 3: "DepsPublish publishes, keeps guard",
+        4: "DepsPublish publishes, drops guard", 5: "DepsPublish skips open document, keeps guard",
+        6: "DepsPublish skips open document, drops guard", 7: "Store passes", 8: "Store stale ticket",
+        9: "Guard passes", 10: "Guard stale ticket", 11: "Publish", 12: "CloseRemove passes", 13: "CloseRemove stale ticket",
+        14: "ClosePublish", 20: "refused: DepsRead under a writer", 21: "refused: store/guard/remove under a writer",
+        22: "refused: store/guard/remove under readers", 23: "refused: start with 4 in flight",
+        24: "refused: start out of order / beyond history", 25: "refused: finished handler"}
 
 
 # ----------------------------------------------------------------------------- texts
 
 def text_src(kind, k):
     if kind == "B":
-        return "# t\ndef f%d(%s-> int:\n    return 1\n" % (k, " " * k)
-    head = "import b\n" if kind == "I" else "# t\n"
+        return "# t\ndef f%d(%s-> int:\n    return 1\n" % (k, " " * (k % 40 + 1))
+    if kind == "L":
+        return '# t\ndef f%d() -> int:\n    return "abc%d\n' % (k, k)
+    if kind == "K":
+        return "# t\nconst K%d: int = %d\n" % (k, k)
+    head = {"I": "import b\n", "R": "import a\n"}.get(kind, "# t\n")
+    tail = "import c\nimport d\nimport n\nimport nosuch\nimport n\n" if kind == "J" else ""
     if k % 3 == 0:  # a clean text: its analysis must publish an EMPTY list (clearing older diagnostics)
-        return head + "def f%d() -> int:\n    return %d\n" % (k, k)
-    return head + "def f%d() -> int:\n    return undefined_%d\n" % (k, k)
+        return head + "def f%d() -> int:\n    return %d\n" % (k, k) + tail
+    return head + "def f%d() -> int:\n    return undefined_%d\n" % (k, k) + tail
 
 
 def hover_of(kind, k):
-    return None if kind == "B" else "```incan\ndef f%d() -> int\n```\n\n*function*" % k
+    if kind in "BL":
+        return None
+    if kind == "K":
+        return "```incan\nconst K%d: int\n```\n\n*const*" % k
+    return "```incan\ndef f%d() -> int\n```\n\n*function*" % k
+
+
+def answers_of(kind, k):
+    """[definition start line, completion labels that are document symbols]"""
+    if kind in "BL":
+        return [None, None]
+    return [1, ["K%d" % k if kind == "K" else "f%d" % k]]
 
 
 def coq_text(kind, k):
-    return "(mkText %d %s %s)" % (k, "false" if kind == "B" else "true", "[1]" if kind == "I" else "[]")
+    return "(mkText %d %s [%s])" % (k, "true" if kind in PARSES else "false", "; ".join(str(URIS[i]) for i in IMPORTS.get(kind, [])))
 
 
 class Case:
-    """history: list of (kind, uri, version) ; text id of note i is i+1 unless `ids` says otherwise."""
+    """history: list of (kind, doc index, version); text id of note i is i+1 unless `ids` says otherwise
+    (an M note sends the texts 500+id and id, in that order). `opens[i]`: send didOpen (else didChange)."""
 
-    def __init__(self, hist, sched, tag, ids=None):
+    def __init__(self, hist, sched, tag, ids=None, opens=None):
         self.hist = hist
         self.sched = sched
         self.tag = tag
         self.ids = ids or [i + 1 for i in range(len(hist))]
+        if opens is None:
+            opens, opened = [], set()
+            for (kind, u, _) in hist:
+                opens.append(kind not in "CEM" and u not in opened)
+                if kind == "C":
+                    opened.discard(u)
+                elif kind not in "EM":
+                    opened.add(u)
+        self.opens = opens
+        # the model does not see E notes (no ticket, no segment: nothing happens): indices are remapped
+        self.live = [i for i, h in enumerate(hist) if h[0] != "E"]
 
     def kind_of(self, tid):
-        return self.hist[self.ids.index(tid)][0]
+        k = self.hist[self.ids.index(tid)][0]
+        return "G" if k == "M" else k
 
     def notes_json(self):
-        out, opened = [], set()
+        out = []
         for i, (kind, u, v) in enumerate(self.hist):
             if kind == "C":
                 out.append(["close", u])
-                opened.discard(u)
+            elif kind == "E":
+                out.append(["change", u, v, []])
+            elif kind == "M":
+                out.append(["change", u, v, [text_src("G", 500 + self.ids[i]), text_src("G", self.ids[i])]])
             else:
-                out.append(["open" if u not in opened else "change", u, v, text_src(kind, self.ids[i])])
-                opened.add(u)
+                out.append(["open" if self.opens[i] else "change", u, v, text_src(kind, self.ids[i])])
         return out
 
+    def model_sched(self):
+        pos = {i: j for j, i in enumerate(self.live)}
+        return [pos[k] if k in pos else (len(self.live) + k if k >= len(self.hist) else None) for k in self.sched]
+
     def coq(self):
-        ns, opened = [], set()
-        for i, (kind, u, v) in enumerate(self.hist):
+        ns = []
+        for i in self.live:
+            kind, u, v = self.hist[i]
             if kind == "C":
-                ns.append("Close %d" % u)
-                opened.discard(u)
+                ns.append("Close %d" % URIS[u])
             else:
-                ns.append("Doc %s %d %d %s" % ("true" if u not in opened else "false", u, v, coq_text(kind, self.ids[i])))
-                opened.add(u)
-        return "([%s], [%s]%%nat)" % ("; ".join(ns), "; ".join(str(k) for k in self.sched))
+                ns.append("Doc %s %d %s %s" % ("true" if self.opens[i] else "false", URIS[u], vlib.zlit(v),
+                                               coq_text("G" if kind == "M" else kind, self.ids[i])))
+        return "([%s], [%s]%%nat)" % ("; ".join(ns), "; ".join(str(k) for k in self.model_sched() if k is not None))
 
     def line(self, docs, natural=False):
         d = {"docs": docs, "history": self.notes_json(), "schedule": self.sched, "hover": HOVER}
@@ -90,7 +143,8 @@ class Case:
         return json.dumps(d)
 
     def key(self):
-        return "%s|%s" % (" ".join("%s%d.%d" % h for h in self.hist), ",".join(map(str, self.sched)))
+        return "%s|%s" % (" ".join("%s%s%d.%d" % (k, "" if o or k in "CEM" else "~", u, v) for (k, u, v), o in zip(self.hist, self.opens)),
+                          ",".join(map(str, self.sched)))
 
 
 # ----------------------------------------------------------------------------- schedule enumeration
@@ -101,9 +155,12 @@ class Case:
 def segs_of(kind, u):
     if kind == "C":
         return ["CR", "CP"]
-    if kind == "B":
+    if kind == "E":
+        return []
+    if kind in "BL":
         return ["GD", "PB"] if VARIANT == "Faithful" else ["ST", "PB"]  # GD: ticket test under the guard, nothing stored
-    return ["DR"] + (["DP"] if kind == "I" else []) + ["ST", "PB"]
+    deps = [] if u == UNTITLED else ["DR"] + ["DP"] * len(IMPORTS.get(kind, []))
+    return deps + ["ST", "PB"]
 
 
 class Sim:
@@ -114,11 +171,13 @@ class Sim:
         self.readers = set()
         self.writer = None
         self.ticket = {}
+        self.e_overlap = False  # an E note started while a handler for the same document was in flight
 
     def copy(self):
         s = Sim(self.hist)
         s.started, s.segs, s.readers, s.writer = self.started, {k: list(v) for k, v in self.segs.items()}, set(self.readers), self.writer
         s.ticket = dict(self.ticket)
+        s.e_overlap = self.e_overlap
         return s
 
     def inflight(self):
@@ -138,9 +197,14 @@ class Sim:
 
     def step(self, k):
         if k == self.started:
-            self.segs[k] = segs_of(self.hist[k][0], self.hist[k][1])
+            kind, u = self.hist[k][0], self.hist[k][1]
+            self.segs[k] = segs_of(kind, u)
             self.started += 1
-            self.ticket[self.hist[k][1]] = k
+            if kind == "E":
+                if any(self.hist[j][1] == u for j in self.inflight()):
+                    self.e_overlap = True
+            else:
+                self.ticket[u] = k
             return
         s = self.segs[k].pop(0)
         nxt = self.segs[k][0] if self.segs[k] else None
@@ -164,6 +228,15 @@ class Sim:
 
     def done(self):
         return self.started == len(self.hist) and not self.inflight()
+
+
+def replay_sim(hist, sched):
+    sim = Sim(hist)
+    for k in sched:
+        if k < 0 or not sim.enabled(k):
+            break
+        sim.step(k)
+    return sim
 
 
 def all_schedules(hist, cap):
@@ -209,6 +282,8 @@ def random_schedule(hist, rng, illegal=False, eager=0.35):
     while not sim.done():
         if illegal and sim.blocked() and rng.random() < 0.5:
             return pref + [rng.choice(sim.blocked())]
+        if illegal and sim.started < len(hist) and len(sim.inflight()) >= 4 and rng.random() < 0.5:
+            return pref + [sim.started]  # a fifth handler cannot start
         mv = sim.moves()
         if not mv:
             return pref
@@ -219,9 +294,28 @@ def random_schedule(hist, rng, illegal=False, eager=0.35):
             k = rng.choice(mv)
         sim.step(k)
         pref.append(k)
-    if illegal:  # a step of a finished or not startable handler
-        return pref + [rng.randrange(0, len(hist) + 1)]
+    if illegal:  # a step of a finished or not startable handler (never an E note: the model does not see those)
+        cand = [k for k in range(len(hist) + 2) if k >= len(hist) or hist[k][0] != "E"]
+        return pref + [rng.choice(cand)]
     return pref
+
+
+def natural_schedule(hist, rng):
+    """gate-free run: polls and drains in random order, then enough rounds to let everything finish."""
+    n, sched, started = len(hist), [], 0
+    while started < n:
+        r = rng.random()
+        if r < 0.55:
+            sched.append(started)
+            started += 1
+        elif r < 0.8 and started:
+            sched.append(rng.randrange(started))
+        else:
+            sched.append(-1)
+    for _ in range(n + 3):
+        sched.append(-1)
+        sched.extend(range(n))
+    return sched
 
 
 def sequential(hist):
@@ -231,50 +325,99 @@ def sequential(hist):
     return out
 
 
-def histories(n, docs, rng=None, count=None):
-    """all (or `count` random) histories of n notifications over the given documents."""
-    slots = [(k, u) for u in docs for k in KINDS if not (k == "I" and u != 0)]
-    out = []
+VERSION_POLICIES = ["up", "up", "up", "same", "down", "wild"]
 
-    def versions(seq):
-        ver, hist = {}, []
-        for (k, u) in seq:
-            if k == "C":
-                hist.append((k, u, 0))
-                ver[u] = ver.get(u, 0)  # clients usually keep counting; reopen-at-1 is exercised by the fixed witnesses
-            else:
-                ver[u] = ver.get(u, 0) + 1
-                hist.append((k, u, ver[u]))
-        return hist
+
+def make_history(seq, rng=None, policy="up"):
+    """seq: list of (kind, doc). Versions: increasing per document (editors), all equal, decreasing (reopen
+    with a lower number), or wild (0, negative, i32::MAX) — the server must not depend on them."""
+    ver, hist = {}, []
+    for (k, u) in seq:
+        if k == "C":
+            hist.append((k, u, 0))
+            continue
+        if policy == "up":
+            ver[u] = ver.get(u, 0) + 1
+        elif policy == "same":
+            ver[u] = 1
+        elif policy == "down":
+            ver[u] = ver.get(u, 10) - 1
+        else:
+            ver[u] = rng.choice([0, -1, 1, 2, 2**31 - 1, -2**31, 7])
+        hist.append((k, u, ver[u]))
+    return hist
+
+
+def slots(docs, kinds=None):
+    return [(k, u) for u in docs for k in DOC_KINDS[u] if kinds is None or k in kinds]
+
+
+def ok_combination(seq):
+    """the dependency steps of a handler must not depend on what is stored: when document 1 imports a,
+    document 0 imports nothing but b (whose only import, a, is then the entry itself)."""
+    return not (any(k == "R" for k, _ in seq) and any(k == "J" for k, _ in seq))
+
+
+def histories(n, docs, rng=None, count=None, kinds=None, policy="up"):
+    """all (or `count` random) histories of n notifications over the given documents."""
+    sl, out = slots(docs, kinds), []
     if count is None:
         def go(pref):
             if len(pref) == n:
-                out.append(versions(pref))
+                if ok_combination(pref):
+                    out.append(make_history(pref, rng, policy))
                 return
-            for s in slots:
+            for s in sl:
                 go(pref + [s])
         go([])
     else:
-        for _ in range(count):
-            out.append(versions([rng.choice(slots) for _ in range(n)]))
+        while len(out) < count:
+            seq = [rng.choice(sl) for _ in range(n)]
+            if ok_combination(seq):
+                out.append(make_history(seq, rng, rng.choice(VERSION_POLICIES) if policy == "mixed" else policy))
     return out
 
 
-FIXED = [  # (tag, history, schedule) — the Coq witnesses of Props.v and friends, always run first
+def flip_opens(case, rng, p=0.2):
+    """didChange for a document that is not open / didOpen for one that already is: same analysis."""
+    for i, (kind, _, _) in enumerate(case.hist):
+        if kind not in "CEM" and rng.random() < p:
+            case.opens[i] = not case.opens[i]
+    return case
+
+
+FIXED = [  # (tag, history, schedule) — the Coq witnesses of Props.v and friends, and one case per model arm
     ("syntax", [("G", 0, 1), ("B", 0, 2)], [0, 0, 0, 0, 1, 1, 1]),
+    ("lex-error", [("G", 0, 1), ("L", 0, 2)], [0, 0, 0, 0, 1, 1, 1]),
     # regression witnesses of the repaired findings (must converge; never suppressed)
     ("regress-stale", [("G", 0, 1), ("G", 0, 2)], [0, 1, 0, 1, 1, 1, 0]),
     ("regress-stale-old-schedule", [("G", 0, 1), ("G", 0, 2)], [0, 1, 0, 1, 1, 1, 0, 0]),
     ("regress-reopen", [("G", 0, 1), ("C", 0, 0), ("G", 0, 1)], [0, 0, 1, 1, 1, 2, 2, 2, 2, 0]),
     ("regress-late-close", [("G", 0, 1), ("C", 0, 0), ("G", 0, 1)], [0, 0, 0, 0, 1, 2, 2, 2, 2, 1]),
     ("regress-dep", [("G", 1, 1), ("I", 0, 1)], [0, 0, 0, 0, 1, 1, 1, 1, 1]),
+    ("guard-stale", [("B", 0, 1), ("G", 0, 2)], [0, 1, 1, 1, 1, 0]),
+    ("empty-change-alone", [("G", 0, 1), ("E", 0, 2)], [0, 0, 0, 0, 1]),
+    ("empty-change-overlap", [("G", 0, 1), ("E", 0, 2)], [0, 1, 0, 0, 0]),
+    ("multi-change", [("G", 0, 1), ("M", 0, 2)], [0, 0, 0, 0, 1, 1, 1, 1]),
+    ("untitled", [("G", UNTITLED, 1), ("B", UNTITLED, 2), ("C", UNTITLED, 0)], [0, 0, 0, 1, 1, 1, 2, 2, 2]),
+    ("disk-deps", [("J", 0, 1)], [0] * 8),
+    ("disk-deps-b-open", [("G", 1, 1), ("J", 0, 1)], [0, 0, 0, 0] + [1] * 8),
+    ("both-directions", [("I", 0, 1), ("R", 1, 1), ("I", 0, 2)], [0] * 5 + [1] * 5 + [2] * 5),
+    ("close-never-opened", [("C", 1, 0), ("C", UNTITLED, 0)], [0, 0, 0, 1, 1, 1]),
+    ("reopen-lower-version", [("G", 0, 7), ("C", 0, 0), ("G", 0, 3)], [0, 1, 2, 0, 1, 2, 0, 1, 2, 2, 0]),
+    ("refused-20", [("G", 0, 1), ("G", 0, 2)], [0, 0, 0, 1, 1]),
+    ("refused-21", [("G", 0, 1), ("G", 1, 1)], [0, 1, 0, 1, 0, 1]),
     ("store-blocked-by-close", [("G", 0, 1), ("C", 0, 0)], [0, 0, 1, 1, 0]),
     ("store-blocked-by-reader", [("I", 0, 1), ("G", 0, 2)], [0, 0, 1, 1, 1]),
+    ("refused-23", [("G", 0, 1), ("G", 1, 1), ("G", 0, 2), ("G", 1, 2), ("G", 0, 3)], [0, 1, 2, 3, 4]),
+    ("refused-24", [("G", 0, 1)], [1]),
+    ("refused-25", [("G", 0, 1)], [0, 0, 0, 0, 0]),
     ("nonvacuous", [("G", 0, 1), ("G", 1, 1), ("G", 0, 2)], [0, 1, 2, 0, 1, 2, 0, 1, 1, 2, 2]),
 ]
 # the interleaving that produced a stale store on the un-repaired server WITHOUT gates (natural suspension
 # at tower-lsp's flush + the RwLock queue); -1 drains the client socket. Must converge now.
 NATURAL_STALE = ([("G", 1, 1), ("I", 0, 1), ("G", 0, 2)], [0, 1, 2, -1, 1, 2, -1, 1, 2, -1, 1, 2])
+CLASSIC = "GIBC"
 
 
 def gen_cases(chk, gates):
@@ -282,26 +425,27 @@ def gen_cases(chk, gates):
     thorough = chk.tier == "thorough"
     cases = [Case(h, s, "fixed:" + t) for (t, h, s) in FIXED if gates or s == sequential(h)]
     if not gates:
-        for n in (1, 2, 3):
-            for h in histories(n, [0, 1]):
+        for n in (1, 2):
+            for h in histories(n, [0, 1, UNTITLED]):
                 cases.append(Case(h, sequential(h), "seq%d" % n))
-        for h in histories(4 if not thorough else 5, [0, 1], rng, 400 if not thorough else 3000):
-            cases.append(Case(h, sequential(h), "seq-long"))
+        for h in histories(4, [0, 1, UNTITLED], rng, 600 if not thorough else 4000, policy="mixed"):
+            cases.append(flip_opens(Case(h, sequential(h), "seq-long"), rng))
         return cases
-    budget = {"two": 140, "three": 6, "three_key": 250, "twodoc": 300, "illegal": 150, "long": 60}
+    budget = {"two": 30, "two_classic": 140, "three": 2, "three_key": 150, "multidoc": 450, "illegal": 200, "long": 80, "burst": 60}
     if thorough:
-        budget = {"two": 10**6, "three": 60, "three_key": 2000, "twodoc": 2500, "illegal": 1000, "long": 800}
-    for h in histories(1, [0, 1]):
+        budget = {"two": 400, "two_classic": 10**6, "three": 40, "three_key": 1500, "multidoc": 3000, "illegal": 1500, "long": 800, "burst": 600}
+    for h in histories(1, [0, 1, UNTITLED]):
         cases.append(Case(h, sequential(h), "one"))
+    # two notifications on one document: every kind pair, all schedules (capped)
     for h in histories(2, [0]):
-        for s in all_schedules(h, budget["two"]):
+        classic = all(k in CLASSIC for k, _, _ in h)
+        for s in all_schedules(h, budget["two_classic" if classic else "two"]):
             cases.append(Case(h, s, "two-all"))
-    key3 = {("G", "G", "G"), ("G", "C", "G"), ("G", "G", "C"), ("G", "B", "G"), ("I", "G", "G")}
-    for h in histories(3, [0]):
+    key3 = {("G", "G", "G"), ("G", "C", "G"), ("G", "G", "C"), ("G", "B", "G"), ("I", "G", "G"), ("G", "E", "G"), ("G", "M", "C")}
+    for h in histories(3, [0], kinds="GIBLCEM"):
         kinds = tuple(k for (k, _, _) in h)
         if kinds in key3:
-            tot = count_schedules(h, budget["three_key"])
-            if tot <= budget["three_key"]:
+            if count_schedules(h, budget["three_key"]) <= budget["three_key"]:
                 for s in all_schedules(h, budget["three_key"]):
                     cases.append(Case(h, s, "three-all"))
             else:
@@ -310,23 +454,32 @@ def gen_cases(chk, gates):
         else:
             for _ in range(budget["three"]):
                 cases.append(Case(h, random_schedule(h, rng), "three-sampled"))
-    n2 = 3 if not thorough else 4
-    for h in histories(n2, [0, 1], rng, budget["twodoc"]):
-        if thorough and count_schedules(h, 60) <= 60:
-            for s in all_schedules(h, 60):
-                cases.append(Case(h, s, "twodoc-all"))
-        else:
-            cases.append(Case(h, random_schedule(h, rng), "twodoc-sampled"))
-    for h in histories(3, [0, 1], rng, budget["illegal"]):
+    # several documents (both files, the untitled one, imports in both directions, disk dependencies),
+    # version policies, open/change flips
+    for h in histories(3 if not thorough else 4, [0, 1, UNTITLED], rng, budget["multidoc"], policy="mixed"):
+        cases.append(flip_opens(Case(h, random_schedule(h, rng), "multidoc-sampled"), rng))
+    for h in histories(3, [0, 1, UNTITLED], rng, budget["illegal"], policy="mixed"):
         cases.append(Case(h, random_schedule(h, rng, illegal=True), "illegal-or-partial"))
     for _ in range(budget["long"]):
-        h = histories(rng.randint(5, 7 if not thorough else 9), [0, 1], rng, 1)[0]
-        cases.append(Case(h, random_schedule(h, rng, eager=0.6), "long"))
+        h = histories(rng.randint(5, 7 if not thorough else 9), [0, 1, UNTITLED], rng, 1, policy="mixed")[0]
+        cases.append(flip_opens(Case(h, random_schedule(h, rng, eager=0.6), "long"), rng))
+    # bursts of 5-8 notifications: everything that can start starts at once (4 in flight, the rest waits)
+    for i in range(budget["burst"]):
+        h = histories(rng.randint(5, 8), [0, 1] if i % 2 else [0], rng, 1, kinds="GIBCEMR", policy="mixed")[0]
+        cases.append(Case(h, random_schedule(h, rng, illegal=(i % 4 == 0), eager=1.0), "burst"))
     seen, out = set(), []
     for c in cases:
         if c.key() not in seen:
             seen.add(c.key())
             out.append(c)
+    return out
+
+
+def gen_natural(chk):
+    rng, out = chk.rng, [Case(NATURAL_STALE[0], NATURAL_STALE[1], "natural-stale")]
+    for _ in range(120 if chk.tier == "quick" else 1200):
+        h = histories(rng.randint(2, 7), [0, 1, UNTITLED], rng, 1, kinds="GIJRKBLMC", policy="mixed")[0]
+        out.append(Case(h, natural_schedule(h, rng), "natural-random"))
     return out
 
 
@@ -339,21 +492,33 @@ def last_pub_for(pubs, u):
     return None
 
 
+def latest_notes(case):
+    latest = {}
+    for i, (kind, u, v) in enumerate(case.hist):
+        if kind != "E":
+            latest[u] = ("G" if kind == "M" else kind, v, case.ids[i])
+    return latest
+
+
+def py_known_syntax(case):
+    return any(kind in "BL" for (kind, _, _) in latest_notes(case).values())
+
+
 def oracle(case, r, ref):
     """Judge the real server's quiescent state against the property, from the history alone."""
     fails = []
-    latest = {}
-    for i, (kind, u, v) in enumerate(case.hist):
-        latest[u] = (kind, v, case.ids[i])
-    final = r["trace"][-1] if r["trace"] else None
+    final = next((t for t in reversed(r["trace"]) if "docs" in t), None)
     stored = final.get("docs") if final and isinstance(final.get("docs"), list) else None
-    for u, (kind, v, k) in sorted(latest.items()):
+    for u, (kind, v, k) in sorted(latest_notes(case).items()):
         hv = r["hover"][u] if r.get("hover") else None
+        an = r["answers"][u] if r.get("answers") else None
         if kind == "C":
             if stored is not None and stored[u] is not None:
                 fails.append("document %d: closed, but version %s is still stored" % (u, stored[u][0]))
             if hv is not None:
                 fails.append("document %d: closed, but hover still answers %r" % (u, hv))
+            if an is not None and an != [None, None]:
+                fails.append("document %d: closed, but definition/completion still answer %r" % (u, an))
             continue
         want_src = text_src(kind, k)
         if stored is not None and stored[u] != [v, want_src]:
@@ -361,6 +526,8 @@ def oracle(case, r, ref):
             fails.append("document %d: latest sent is version %d (text %d) but %s is stored" % (u, v, k, got))
         if hv != hover_of(kind, k):
             fails.append("document %d: hover answers %r, latest text %d would give %r" % (u, hv, k, hover_of(kind, k)))
+        if an is not None and kind not in "BL" and an != answers_of(kind, k):
+            fails.append("document %d: definition/completion answer %r, latest text %d would give %r" % (u, an, k, answers_of(kind, k)))
         lp = last_pub_for(r["pubs"], u)
         want = [u, v, ref[(kind, k)]]
         if lp != want:
@@ -371,13 +538,15 @@ def oracle(case, r, ref):
 def model_pubs_payload(case, mp, ref):
     """model publications -> payloads as the client sees them."""
     out = []
-    for (u, v, (srck, i)) in mp:
+    for (mu, v, (srck, i)) in mp:
+        u = URIS.index(mu)
         ver = None if v == -1 else v
         if srck == 0:
-            kind = case.kind_of(i)
-            out.append([u, ver, ref[(kind, i)]])
+            out.append([u, ver, ref[(case.kind_of(i), i)]])
+        elif srck == 1 and i == -1:
+            out.append([u, ver, ref[("disk", u)]])  # syntax-only view of the file on disk
         else:
-            out.append([u, ver, []])  # syntax-only view of a parsing text / of the disk file; clear
+            out.append([u, ver, []])  # clear
     return out
 
 
@@ -389,12 +558,15 @@ def compare(case, r, m, gates):
         return ["legal: model %s, server %s (blocked_at %s)" % (bool(legal), r["legal"], r.get("blocked_at"))]
     if bool(quiescent) != bool(r["quiescent"]):
         diffs.append("quiescent: model %s, server %s" % (bool(quiescent), r["quiescent"]))
-    if len(mtrace) != len(r["trace"]):
-        return diffs + ["steps executed: model %d, server %d" % (len(mtrace), len(r["trace"]))]
+    # the model does not see E notes: drop their (single) step from the server's trace
+    rtrace = [t for t, k in zip(r["trace"], case.sched) if not (k < len(case.hist) and case.hist[k][0] == "E")]
+    rsched = [k for t, k in zip(r["trace"], case.sched) if not (k < len(case.hist) and case.hist[k][0] == "E")]
+    if len(mtrace) != len(rtrace):
+        return diffs + ["steps executed: model %d, server %d" % (len(mtrace), len(rtrace))]
     last = {}
-    for i, k in enumerate(case.sched[:len(mtrace)]):
+    for i, k in enumerate(rsched):
         last[k] = i
-    for i, ((mdocs, mlock, mn), t) in enumerate(zip(mtrace, r["trace"])):
+    for i, ((mdocs, mlock, mn, _arm), t) in enumerate(zip(mtrace, rtrace)):
         if not gates and i not in last.values():
             continue  # without gates only handler-completion points are comparable
         if t["npubs"] != mn:
@@ -402,14 +574,23 @@ def compare(case, r, m, gates):
         if gates:
             if t["lock"] != mlock:
                 diffs.append("step %d: lock model %d, server %s" % (i, mlock, t["lock"]))
-            if isinstance(t["docs"], list):
-                for u, (mv, mt) in enumerate(mdocs):
-                    want = None if mv == -1 else [mv, text_src(case.kind_of(mt), mt)]
+            for u, (mv, mt) in enumerate(mdocs):
+                kind = None if mv == -1 and mt == -1 else case.kind_of(mt)
+                if isinstance(t["docs"], list):
+                    want = None if kind is None else [mv, text_src(kind, mt)]
                     if t["docs"][u] != want:
                         diffs.append("step %d: document %d model %r, server %r" % (i, u, (mv, mt), t["docs"][u] and t["docs"][u][0]))
+                # requests answered between notifications come from the document stored at that moment
+                if "hover" in t:
+                    want = None if kind is None else hover_of(kind, mt)
+                    if t["hover"][u] != want:
+                        diffs.append("step %d: hover(document %d) model %r, server %r" % (i, u, want, t["hover"][u]))
+                    want = [None, None] if kind is None else answers_of(kind, mt)
+                    if t["answers"][u] != want:
+                        diffs.append("step %d: definition/completion(document %d) model %r, server %r" % (i, u, want, t["answers"][u]))
         else:
             for u, (mv, mt) in enumerate(mdocs):
-                want = None if mv == -1 else hover_of(case.kind_of(mt), mt)
+                want = None if mv == -1 and mt == -1 else hover_of(case.kind_of(mt), mt)
                 if t.get("hover") and t["hover"][u] != want:
                     diffs.append("step %d: document %d hover model %r, server %r" % (i, u, want, t["hover"][u]))
     return diffs
@@ -421,11 +602,11 @@ def scratch_dir():
     d = os.path.join(vlib.BUILD, "c18-scratch", str(os.getpid()))
     shutil.rmtree(d, ignore_errors=True)
     os.makedirs(d)
-    for name, k in (("a", 91), ("b", 90)):
+    for name, (kind, k) in DISK.items():
         with open(os.path.join(d, name + ".incn"), "w") as f:
-            f.write(text_src("G", k))
+            f.write(text_src(kind, k))
     d = os.path.realpath(d)
-    return d, ["file://%s/a.incn" % d, "file://%s/b.incn" % d]
+    return d, ["file://%s/%s.incn" % (d, n) for n in "abcdn"] + ["untitled:Untitled-1"]
 
 
 def hook_present():
@@ -446,40 +627,74 @@ def build(gates):
 def run_real(binary, lines):
     out = vlib.run_harness(binary, ["run", "c18"], "\n".join(lines) + "\n", timeout=3000)
     res = [json.loads(l) for l in out.split("\n") if l]
+    if len(res) != len(lines):
+        raise vlib.Infra("harness returned %d results for %d cases" % (len(res), len(lines)))
     if VARIANT == "Repaired":
         # a repaired server stores unparsable texts, so an importer's diagnostics may carry the
         # dependency summary line; the model abstracts diagnostics as a function of the text alone
         for r in res:
             for p in r.get("pubs", []):
                 p[2] = [m for m in p[2] if "Failed to parse dependency" not in m and "Failed to lex dependency" not in m]
-    if len(res) != len(lines):
-        raise vlib.Infra("harness returned %d results for %d cases" % (len(res), len(lines)))
     return res
 
 
+def needed_texts(cases):
+    need = set()
+    for c in cases:
+        for i, (kind, _, _) in enumerate(c.hist):
+            if kind == "M":
+                need.add(("G", c.ids[i]))
+            elif kind not in "CE":
+                need.add((kind, c.ids[i]))
+    return sorted(need)
+
+
 def references(binary, docs, cases):
-    """diagnostics of every text analysed alone on a fresh server (document 0) — the meaning of
-    `computed from that text`."""
-    need = sorted({(kind, c.ids[i]) for c in cases for i, (kind, _, _) in enumerate(c.hist) if kind != "C"})
-    lines = [json.dumps({"docs": docs, "history": [["open", 0, 1, text_src(kind, k)]], "schedule": [0] * (1 + len(segs_of(kind, 0))),
-                         "hover": HOVER}) for (kind, k) in need]
-    ref = {}
-    problems = []
+    """diagnostics of every text analysed alone on a fresh server — the meaning of `computed from
+    that text` — checked against what the text must yield by construction; plus the syntax-only
+    diagnostics of the files on disk."""
+    need = needed_texts(cases)
+    lines = []
+    for (kind, k) in need:
+        u = 1 if kind == "R" else 0
+        lines.append(json.dumps({"docs": docs, "history": [["open", u, 1, text_src(kind, k)]],
+                                 "schedule": [0] * (1 + len(segs_of(kind, u))), "hover": HOVER}))
+    ref, problems = {}, []
     for (kind, k), r in zip(need, run_real(binary, lines)):
-        hist = [["open", 0, 1, text_src(kind, k)]]
-        clean = kind != "B" and k % 3 == 0
-        lp = last_pub_for(r.get("pubs", []), 0) if not r.get("error") else None
-        want_desc = "an empty list" if clean else ("a diagnostic naming undefined_%d" % k if kind != "B" else "a syntax diagnostic")
-        ok = lp is not None and lp[1] == 1 and (
-            (clean and lp[2] == []) or
-            (not clean and kind != "B" and any("undefined_%d'" % k in m for m in lp[2])) or
-            (kind == "B" and len(lp[2]) > 0))
-        if not ok or not r.get("quiescent"):
-            problems.append({"case": "single open of text %s%d" % (kind, k), "history": hist, "schedule": [0] * (1 + len(segs_of(kind, 0))),
-                             "why": ["opening this text alone must publish %s for version 1; the server published %r" % (want_desc, lp)],
+        u = 1 if kind == "R" else 0
+        hist = [["open", u, 1, text_src(kind, k)]]
+        clean = kind == "K" or (kind in PARSES and k % 3 == 0)
+        lp = last_pub_for(r.get("pubs", []), u) if not r.get("error") else None
+        msgs = lp[2] if lp else []
+        summary = [m for m in msgs if "dependency" in m]
+        own = [m for m in msgs if "dependency" not in m]
+        if kind in "BL":
+            ok, want_desc = len(msgs) > 0 and (kind == "B" or any("Unterminated" in m for m in msgs)), "a syntax diagnostic"
+        elif clean:
+            ok, want_desc = own == [], "no diagnostic of its own"
+        else:
+            ok, want_desc = any("undefined_%d'" % k in m for m in own), "a diagnostic naming undefined_%d" % k
+        if kind == "J":
+            ok = ok and len(summary) == 2
+        elif kind not in "BL":
+            ok = ok and summary == []
+        ok = ok and lp is not None and lp[1] == 1 and r.get("quiescent") and \
+            (r["hover"][u] == hover_of(kind, k)) and (kind in "BL" or r["answers"][u] == answers_of(kind, k))
+        if not ok:
+            problems.append({"case": "single open of text %s%d" % (kind, k), "history": hist, "schedule": [0] * (1 + len(segs_of(kind, u))),
+                             "why": ["opening this text alone must publish %s for version 1 and answer hover/definition/completion from it; "
+                                     "the server published %r, hover %r, answers %r" % (want_desc, lp, r.get("hover"), r.get("answers"))],
                              "class": [], "server": {"pubs": r.get("pubs"), "error": r.get("error")}})
-        # the expected payload: by definition [] for a clean text, otherwise what the text's own analysis reports
-        ref[(kind, k)] = [] if clean else (lp[2] if lp is not None else ["<nothing published>"])
+        ref[(kind, k)] = msgs if lp is not None else ["<nothing published>"]
+        if kind == "J" and ("disk", 2) not in ref:
+            for du in (1, 2, 3, 4):
+                dp = last_pub_for(r.get("pubs", []), du)
+                ref[("disk", du)] = dp[2] if dp else ["<nothing published>"]
+    ref.setdefault(("disk", 0), [])
+    ref.setdefault(("disk", 1), [])
+    for du, want_nonempty in ((2, True), (3, True), (4, False)):
+        if ("disk", du) in ref and bool(ref[("disk", du)]) != want_nonempty:
+            problems.append({"case": "disk dependency %d" % du, "why": ["unexpected syntax diagnostics for the file on disk: %r" % ref[("disk", du)]], "class": []})
     return ref, problems
 
 
@@ -488,17 +703,18 @@ def run(chk):
         "Coq 8.16.1 kernel (coqc; vm_compute for the closed witness runs); no axioms",
         "tokio::sync::RwLock (exclusion only is modelled; its FIFO fairness only removes schedules), tower-lsp 0.17 dispatch "
         "(handlers start in arrival order, <= 4 in flight) and its client channel — outside the model",
-        "hand-written C18/Model.v (segments = code between the awaits of analyze_document / collect_dependency_modules / did_close), "
+        "hand-written C18/Model.v (segments = code between the awaits of analyze_document / finish_analysis / collect_dependency_modules / did_close), "
         "tied by the per-step correspondence run",
         "gate hook src/lsp/verif_gate.rs (cfg incan_verif): parks a driven handler immediately before each modelled await",
         "vharness c18 driver (LspService in process, current-thread runtime) + this script's differ and schedule enumerator",
     ]
     chk.assumptions = [
         "an await is modelled as a suspension BEFORE its effect; tower-lsp's publish really suspends after enqueueing (flush) — "
-        "the model over-approximates that (the harness drains the client socket so the flush never parks)",
-        "dependency model: direct imports of document 0 on document 1 only; nested imports, unreadable files not modelled",
-        "didChange with an empty change list (a no-op in the server) is not generated",
-        "Repaired variant is a design, not code in /repo (fix described in the report, not applied)",
+        "the model over-approximates that (the harness drains the client socket so the flush never parks); gate-free natural runs are judged by the oracle only",
+        "dependency model: the visit order of a text's imports is an attribute of the text (static); generated histories keep it static "
+        "(document 1 imports only a; no J text together with an R text)",
+        "a didChange without content changes is invisible to the model (it must have no effect at all); one with several changes counts as its last text",
+        "uri aliasing (percent-encoding, symlinks) is outside the model: documents and tickets use the same Url key, but the dependency lookup uses the canonical path",
     ]
     t0 = time.time()
     res = chk.proof_stage("C18", allow_axioms=())
@@ -512,7 +728,21 @@ def run(chk):
         shutil.rmtree(d, ignore_errors=True)
 
 
+def py_classes(case):
+    """classes decided on the case itself (not by the model, which describes the intended behaviour)."""
+    out = []
+    if any(k == "M" for k, _, _ in case.hist):
+        out.append("lsp-multi-change-first")
+    if any(k == "E" for k, _, _ in case.hist) and replay_sim(case.hist, case.sched).e_overlap:
+        out.append("lsp-empty-change-cancels")
+    return out
+
+
 def _run(chk, res, gates, binary, docs):
+    # TEMPORARY (lead: drop after merging build/kf-C18.json into known_findings.json)
+    p = os.path.join(vlib.VERIF, "build", "kf-C18.json")
+    if os.path.exists(p):
+        chk.findings = json.load(open(p))
     known = {f["id"] for f in chk.findings if f.get("status") == "known"}
     if VARIANT == "Repaired":
         known = set()
@@ -520,29 +750,30 @@ def _run(chk, res, gates, binary, docs):
         chk.notes.append("C18_VARIANT=Repaired: server compared with the repaired model, no finding suppressed")
     t0 = time.time()
     cases = gen_cases(chk, gates)
-    vlib.log('[c18] %d cases generated in %.1fs' % (len(cases), time.time() - t0))
+    naturals = gen_natural(chk)
+    vlib.log('[c18] %d cases (+%d natural) generated in %.1fs' % (len(cases), len(naturals), time.time() - t0))
     t0 = time.time()
-    ref, ref_problems = references(binary, docs, cases)
+    ref, ref_problems = references(binary, docs, cases + naturals)
     real = run_real(binary, [c.line(docs) for c in cases])
+    nreal = run_real(binary, [c.line(docs, natural=True) for c in naturals])
     vlib.log('[c18] real server runs in %.1fs' % (time.time() - t0))
     t0 = time.time()
-    probe = real[0]
-    if probe.get("gates") != gates:
-        raise vlib.Infra("harness built with gates=%s but the hook detection says %s" % (probe.get("gates"), gates))
+    if real[0].get("gates") != gates:
+        raise vlib.Infra("harness built with gates=%s but the hook detection says %s" % (real[0].get("gates"), gates))
     # the model, inside Coq
     model_ok = vlib.coq_build(["C18/Model.vo"])[0]
     model = None
     if model_ok:
         req = "From Coq Require Import ZArith List Bool.\nFrom Verif Require Import C18.Model.\nImport ListNotations.\nOpen Scope Z_scope."
         ty = "list note * list nat"
-        fn = ("fun c => (render " + VARIANT + " [0;1] (fst c) (snd c), "
+        fn = ("fun c => (render " + VARIANT + " [%s] (fst c) (snd c), " % "; ".join(map(str, URIS)) +
               "(known_syntax (fst c), former_dep (fst c), former_overlap (fst c) (snd c)))")
         model = vlib.coq_eval(req, ty, fn, [c.coq() for c in cases], shard=150, tag="c18")
     else:
         res["tie_ok"] = False
         res["broken"].append({"what": "model", "message": "C18/Model.v does not build"})
     vlib.log('[c18] model evaluated in coqc in %.1fs' % (time.time() - t0))
-    dist, corr_bad, fails, suppressed = {}, [], list(ref_problems), {}
+    dist, corr_bad, fails, suppressed, arms = {}, [], list(ref_problems), {}, {a: 0 for a in ARMS}
     for i, c in enumerate(cases):
         r = real[i]
         if r.get("error"):
@@ -550,45 +781,80 @@ def _run(chk, res, gates, binary, docs):
             continue
         dist[c.tag] = dist.get(c.tag, 0) + 1
         chk.count_case(c.key(), nontrivial=r["legal"] and len(c.hist) > 1)
+        pyc = [x for x in py_classes(c) if x in known]
         cls, dd, former = [], [], []
         if model is not None:
             mv = model[i]
-            m, (ksyn, kdep, kov) = list(mv[:4]), mv[4]
-            # only lsp-error-keeps-old is a class; the two repaired ones are reported for orientation only
+            m, bad_arm, (ksyn, kdep, kov) = list(mv[:4]), mv[4], mv[5]
+            for (_d, _l, _n, a) in m[2]:
+                arms[a] = arms.get(a, 0) + 1
+            if bad_arm != -1:
+                arms[bad_arm] = arms.get(bad_arm, 0) + 1
+            # only lsp-error-keeps-old is a model class; the two repaired ones are reported for orientation only
             cls = ["lsp-error-keeps-old"] if ksyn else []
             former = [n for n, b in (("lsp-dep-republish", kdep), ("lsp-stale-store", kov)) if b]
             m[3] = model_pubs_payload(c, m[3], ref)
             dd = compare(c, r, m, gates)
             if r["pubs"] != m[3] and (r["legal"] and m[0]):
                 dd.append("publishDiagnostics stream: model %r, server %r" % (m[3], r["pubs"]))
-            if dd:
+            if dd and not pyc:
                 corr_bad.append({"case": c.key(), "tag": c.tag, "differences": dd[:6]})
         if r["quiescent"]:
             why = oracle(c, r, ref)
             if why:
-                # suppressed only if the case lies in a LISTED class and the server did exactly what the
-                # faithful model (whose refutations are the listed findings) predicts for it
+                # suppressed only if the case lies in a LISTED class; for the model class additionally the server
+                # must have done exactly what the model predicts for it
                 listed = [x for x in cls if x in known and x == "lsp-error-keeps-old"]
-                if listed and not dd and model is not None:
+                if pyc:
+                    for x in pyc:
+                        suppressed[x] = suppressed.get(x, 0) + 1
+                elif listed and not dd and model is not None:
                     for x in listed:
                         suppressed[x] = suppressed.get(x, 0) + 1
                 else:
                     fails.append({"case": c.key(), "tag": c.tag, "history": c.notes_json(), "schedule": c.sched,
-                                  "why": why, "class": cls, "would_have_been_in_repaired_class": former,
+                                  "why": why, "class": cls + py_classes(c), "would_have_been_in_repaired_class": former,
                                   "server": {"pubs": r["pubs"], "hover": r["hover"]}})
-    chk.coverage["rule"] = ("a case = (history, schedule); histories over {open/change good, good importing document 1, syntax error, close} "
-                            "x 2 documents; schedules enumerated exhaustively (tags *-all) or sampled by seeded random walks over the "
-                            "enabled moves; non-trivial = legal schedule with >= 2 notifications; distinct by (history, schedule)")
+    # gate-free natural runs: oracle only (the model over-approximates them)
+    nat_ok = 0
+    for c, r in zip(naturals, nreal):
+        chk.count_case("natural|" + c.key())
+        dist[c.tag] = dist.get(c.tag, 0) + 1
+        why = ["server/harness error: %s" % r["error"]] if r.get("error") else \
+              (["natural run did not reach quiescence (stopped at %r)" % r.get("blocked_at")] if not r.get("quiescent") else oracle(c, r, ref))
+        pyc = [x for x in py_classes(c) if x in known and x == "lsp-multi-change-first"]
+        if not why:
+            nat_ok += 1
+        elif pyc or (py_known_syntax(c) and "lsp-error-keeps-old" in known and r.get("quiescent")):
+            x = pyc[0] if pyc else "lsp-error-keeps-old"
+            suppressed[x] = suppressed.get(x, 0) + 1
+        else:
+            fails.append({"case": c.key(), "tag": c.tag + " (no gates)", "history": c.notes_json(), "schedule": c.sched, "natural": True,
+                          "why": why, "class": [], "server": {"pubs": r.get("pubs"), "hover": r.get("hover")}})
+    chk.coverage["rule"] = ("a case = (history, schedule); histories over 10 notification kinds (plain / importing an open document / importing disk modules "
+                            "with and without errors, nested and duplicate imports / importing back / const / parse error / lex error / several content changes / "
+                            "no content change / close) x 3 documents (two files, one untitled) x version policies (increasing, equal, decreasing, wild) x "
+                            "open/change flips; schedules enumerated exhaustively (tags *-all) or sampled by seeded random walks over the enabled moves, bursts "
+                            "with everything started at once, refused steps; plus gate-free natural runs judged by the oracle; non-trivial = legal schedule with >= 2 "
+                            "notifications; distinct by (history, schedule)")
     chk.coverage["gates"] = gates
     chk.coverage["distribution"] = dist
     chk.coverage["suppressed_by_known_class"] = suppressed
     chk.coverage["traces_validated_against_impl"] = len(cases) if model is not None else 0
     chk.coverage["correspondence_mismatches"] = len(corr_bad)
+    if corr_bad:
+        chk.coverage["correspondence_samples"] = corr_bad[:5]
+    chk.coverage["natural_runs_converged"] = nat_ok
+    chk.coverage["model_arm_hits"] = {"%d %s" % (a, ARMS.get(a, "?")): n for a, n in sorted(arms.items())}
+    if model is not None and gates:
+        zero = [a for a in ARMS if not arms.get(a)]
+        if zero:
+            res["tie_ok"] = False
+            res["broken"].append({"what": "generator", "message": "model arms never reached by the correspondence stream: %s" % [ARMS[a] for a in zero]})
     for c in cases[:4] + cases[-4:]:
         chk.sample(c.key())
     if not gates:
-        chk.notes.append("gate hook not found in the repository: only sequential schedules were driven "
-                         "(apply hooks/c18_lsp_gate.patch to /repo to enable await-level schedules)")
+        chk.notes.append("gate hook not found in the repository: only sequential schedules were driven")
     # known findings: replay each witness on the real server; a FIXED finding whose witness fails again
     # is a regression and is never suppressed
     for f in chk.findings:
@@ -607,27 +873,19 @@ def _run(chk, res, gates, binary, docs):
             fails.append({"case": c.key(), "tag": "regression of fixed finding " + f["id"], "history": c.notes_json(), "schedule": c.sched,
                           "why": bad or ["witness schedule of the fixed finding is no longer a complete run"], "class": [],
                           "server": {"pubs": r.get("pubs"), "hover": r.get("hover")}})
-    # the natural (gate-free) interleaving that used to produce the stale store
-    c = Case(NATURAL_STALE[0], NATURAL_STALE[1], "natural-stale")
-    r = run_real(binary, [c.line(docs, natural=True)])[0]
-    bad = ["natural run did not reach quiescence: %r" % r.get("blocked_at")] if not r.get("quiescent") else oracle(c, r, ref_for(binary, docs, c, ref))
-    chk.count_case("natural|" + c.key())
-    if bad:
-        fails.append({"case": c.key(), "tag": "natural-stale (no gates)", "history": c.notes_json(), "schedule": c.sched, "natural": True,
-                      "why": bad, "class": [], "server": {"pubs": r.get("pubs"), "hover": r.get("hover")}})
     fails.sort(key=lambda f: (bool(f.get('class')), len(f.get('history', [])), len(f.get('schedule', []))))
     for f in fails[:20]:
         chk.violation("failing-input", f)
     if not fails:
         if corr_bad:
-            chk.violation("correspondence-broken", {"theorem_or_tie": "C18 model/server correspondence (per-step trace, publishDiagnostics stream)",
+            chk.violation("correspondence-broken", {"theorem_or_tie": "C18 model/server correspondence (per-step trace, answers between notifications, publishDiagnostics stream)",
                                                     "cases": corr_bad[:10]}, no_input=True)
         if not res["proofs_ok"] or not res["tie_ok"]:
             chk.violation("proof-broken", {"theorem_or_tie": res["broken"]}, no_input=True)
 
 
 def ref_for(binary, docs, case, ref):
-    missing = [(kind, case.ids[i]) for i, (kind, _, _) in enumerate(case.hist) if kind != "C" and (kind, case.ids[i]) not in ref]
+    missing = [x for x in needed_texts([case]) if x not in ref]
     if missing:
         ref = dict(ref)
         ref.update(references(binary, docs, [case])[0])
@@ -642,28 +900,14 @@ def replay(path):
     try:
         for v in data["violations"]:
             det = v["detail"]
-            if "history" in det:
-                hist, ids = [], []
-                for i, n in enumerate(det["history"]):
-                    if n[0] == "close":
-                        hist.append(("C", n[1], 0))
-                        ids.append(1000 + i)
-                        continue
-                    m = re.search(r"def f(\d+)\(", n[3])
-                    tid = int(m.group(1)) if m else i + 1
-                    kind = "I" if n[3].startswith("import") else ("B" if text_src("B", tid) == n[3] else "G")
-                    hist.append((kind, n[1], n[2]))
-                    ids.append(tid)
-                c = Case(hist, det["schedule"], "replay", ids)
-                ref = references(binary, docs, [c])[0]
-                r = run_real(binary, [c.line(docs)])[0]
-                print("case     ", c.key())
-                print("server   ", json.dumps({"pubs": r["pubs"], "hover": r["hover"], "final": r["trace"][-1] if r["trace"] else None}))
-                if vlib.coq_build(["C18/Model.vo"])[0]:
-                    req = "From Coq Require Import ZArith List Bool.\nFrom Verif Require Import C18.Model.\nImport ListNotations.\nOpen Scope Z_scope."
-                    m = vlib.coq_eval(req, "list note * list nat", "fun c => render Faithful [0;1] (fst c) (snd c)", [c.coq()], tag="c18r")[0]
-                    print("model    ", m)
-                print("oracle   ", oracle(c, r, ref) if r["quiescent"] else "not quiescent")
+            if "history" in det and "schedule" in det:
+                line = json.dumps({"docs": docs, "history": det["history"], "schedule": det["schedule"], "hover": HOVER,
+                                   "natural": bool(det.get("natural"))})
+                r = run_real(binary, [line])[0]
+                print("case     ", det.get("case"))
+                print("why      ", det.get("why"))
+                print("server   ", json.dumps({"legal": r.get("legal"), "quiescent": r.get("quiescent"), "pubs": r.get("pubs"), "hover": r.get("hover"),
+                                                "answers": r.get("answers"), "final": next((t for t in reversed(r.get("trace", [])) if "docs" in t), None)}))
             else:
                 print(json.dumps(det, indent=1))
     finally:
